@@ -221,7 +221,8 @@ def stripZeros (D : Nat) (q : Int) : Nat × Int :=
     | fuel + 1 => if D ≠ 0 ∧ D % 10 = 0 then go fuel (D / 10) (q + 1) else (D, q)
   go 20 D q
 
-/-- ryu `pretty::format64` on a finite non-zero magnitude. -/
+/-- serde_json 1.0.150 `write_f64` (shortest round-trip digits, ryu's `pretty` layout, but a positive
+    exponent is written with `+`: `1e+21`) on a finite magnitude. -/
 def prFiniteMag (b : Nat) : List Char :=
   if b = 0 then "0.0".toList
   else
@@ -235,7 +236,7 @@ def prFiniteMag (b : Nat) : List Char :=
     else if -5 < kk ∧ kk ≤ 0 then "0.".toList ++ List.replicate (-kk).toNat '0' ++ ds
     else
       let ex := kk - 1
-      let exs := (if ex < 0 then ['-'] else []) ++ natDigits ex.natAbs
+      let exs := (if ex < 0 then ['-'] else ['+']) ++ natDigits ex.natAbs
       if ds.length = 1 then ds ++ 'e' :: exs
       else ds.take 1 ++ '.' :: ds.drop 1 ++ 'e' :: exs
 
